@@ -8,7 +8,7 @@ what it really sent, so only the library's authentication logic can stop the han
 Oracle (only "must not complete", never which alert): for every behaviour other than the honest control,
 tls_do_handshake of the library endpoint returns != 1.  The honest control (same PKI instance, same chain depth, same
 seed) runs first in every case; it must complete with application data flowing in both directions, otherwise the case
-is not judged (key scripted12/control/..., a harness/interoperability failure, not a C09 verdict).
+is not judged (counted as control-failed; interoperability itself is judged by C08's interop12 sub-check, not here).
 """
 import hashlib
 from hypothesis import strategies as st
@@ -72,6 +72,43 @@ def _detail(proto, role, beh, case):
     return None
 
 
+def _honest(ctx, proto, role, inst, n_inter, seed, alen):
+    """the honest script against the library endpoint: ('ok' | 'inconclusive' | 'failed', message)"""
+    rng = S.Rng(("app", seed))
+    app = (rng.bytes(1 + alen), rng.bytes(1 + (alen * 7) % 2500))
+    honest = "honest-noauth" if role == "server-noauth" else "honest"
+    ctl = S.run(ctx.variant, proto, role, honest, inst=inst, n_inter=n_inter, seed=seed, app=app, idle=30.0)
+    if ctl["setup"] is None or ctl["setup"][:2] != ("setup", "ok"):
+        raise AssertionError("library endpoint set-up failed: %r" % (ctl["setup"],))
+    srep = ctl["script"]
+    if ctl["stalled"] or (srep["stop"] and srep["stop"][0] == "timeout"):
+        return "inconclusive", ""
+    if not (ctl["lib"] == 1 and srep["completed"] and ctl["app"] == []):
+        return "failed", ("honest scripted %s against the library %s (%s) does not interoperate: tls_do_handshake=%r, script completed=%r stop=%r "
+                          "log=%s app=%r (inst=%d, %d intermediate CA, seed=%d)" %
+                          ("server" if role == "client" else "client", role, proto, ctl["lib"], srep["completed"], srep["stop"], " ".join(srep["log"]),
+                           ctl["app"], inst, n_inter, seed))
+    return "ok", ""
+
+
+INTEROP_CELLS = [(pr, ro) for pr in ("tls12", "tlcp") for ro in ("client", "server", "server-noauth")]
+interop_s = st.binary(min_size=8, max_size=8).map(lambda x: dict(_expand(x), icell=int.from_bytes(hashlib.sha256(b"i12" + x).digest()[:2], "big") % len(INTEROP_CELLS)))
+
+
+def register_interop(P, quick=900, thorough=20000):
+    """for C08: the library against an independent (pure-Python) honest implementation of the same protocol, both roles"""
+    @P.sub("interop12", interop_s, quick=quick, thorough=thorough, chunk=60)
+    def interop12(case, ctx):
+        """library endpoint against the independent pure-Python TLS 1.2 / TLCP implementation (honest): handshake completes, data arrives intact both ways"""
+        proto, role = INTEROP_CELLS[case["icell"]]
+        st_, msg = _honest(ctx, proto, role, case["inst"], case["n_inter"], case["seed"], case["alen"])
+        if st_ == "inconclusive":
+            ctx.note("inconclusive-timeout"); return
+        ctx.case(nontrivial=True, classes=[proto, "lib-" + role, "depth%d" % (1 + case["n_inter"])], ident=case, sample=dict(case, proto=proto, role=role))
+        ctx.check(st_ == "ok", msg, "interop12/%s/%s" % (proto, role))
+    return interop12
+
+
 def register(P):
     @P.sub("scripted12", case_s, quick=3200, thorough=40000, chunk=100)
     def scripted12(case, ctx):
@@ -79,25 +116,17 @@ def register(P):
         proto, role, beh = CELLS[case["cell"]]
         inst, n_inter, seed = case["inst"], case["n_inter"], case["seed"]
         keysel, encsel = S.KEYSEL[case["keysel"]], S.ENCSEL[case["encsel"]]
-        rng = S.Rng(("app", seed))
-        app = (rng.bytes(1 + case["alen"]), rng.bytes(1 + (case["alen"] * 7) % 2500))
         honest = "honest-noauth" if role == "server-noauth" else "honest"
 
-        # -- the control: the honest script must interoperate (precondition, not a C09 verdict)
-        ctl = S.run(ctx.variant, proto, role, honest, inst=inst, n_inter=n_inter, seed=seed, app=app, idle=30.0)
-        ckey = "scripted12/control/%s/%s" % (proto, role)
-        if ctl["setup"] is None or ctl["setup"][:2] != ("setup", "ok"):
-            raise AssertionError("library endpoint set-up failed: %r" % (ctl["setup"],))
-        srep = ctl["script"]
-        if ctl["stalled"] or (srep["stop"] and srep["stop"][0] == "timeout"):
+        # -- the control: the honest script must interoperate.  That is a precondition here, not a C09 verdict: a failing control is
+        # counted and the case is left unjudged (interoperability with the independent implementation is judged by C08's interop12)
+        st_, msg = _honest(ctx, proto, role, inst, n_inter, seed, case["alen"])
+        if st_ == "inconclusive":
             ctx.note("control-inconclusive-timeout")
             return
-        if not (ctl["lib"] == 1 and srep["completed"] and ctl["app"] == []):
+        if st_ != "ok":
             ctx.note("control-failed")
-            ctx.check(False, "honest scripted %s against the library %s (%s) does not interoperate: tls_do_handshake=%r, script completed=%r stop=%r "
-                      "log=%s app=%r (inst=%d, %d intermediate CA, seed=%d)" %
-                      ("server" if role == "client" else "client", role, proto, ctl["lib"], srep["completed"], srep["stop"], " ".join(srep["log"]),
-                       ctl["app"], inst, n_inter, seed), ckey)
+            ctx.note("control-failed/%s/%s" % (proto, role))
             return
         ctx.note("control-passed")
         ctx.note("control-passed/%s/%s" % (proto, role))
